@@ -219,6 +219,34 @@ def run_case(ctx, name, params):
             ctx.violation("leaders/exception", "update_global_best raised %r" % e, None)
             return
         judge_leaders(ctx, a, "direct")
+        if r.random() < 0.5:
+            # the declared box is narrowed / moved in place (refinement run) and the SAME algorithm object goes on: clamp and
+            # bound reset must follow the box that is declared now
+            for q in p.parameters:
+                lb, ub = q["bounds"]
+                w = ub - lb
+                a_, b_ = sorted([lb + r.uniform(0.0, 0.6) * w, lb + r.uniform(0.4, 1.0) * w])
+                if b_ - a_ < 1e-3 * w:
+                    a_, b_ = lb + 0.3 * w, lb + 0.6 * w
+                q["bounds"][0], q["bounds"][1] = a_, b_
+            bx2 = [tuple(q["bounds"]) for q in p.parameters]
+            pop2 = [particle(r, bx2, m, True) for _ in range(r.randint(1, 8))]
+            for q in pop2:
+                q.features["best_vector"] = [r.uniform(lb, ub) for lb, ub in bx2]
+            a.leaders._contents = [particle(r, bx2, m, False) for _ in range(2)]
+            try:
+                a.update_velocity(pop2)
+                judge_velocity(ctx, a, pop2, "after_box_change")
+                for q in pop2:
+                    if r.random() < 0.5:
+                        q.features["velocity"] = [r.uniform(-3, 3) * (ub - lb) for lb, ub in bx2]
+                prep2 = pre_pos(pop2)
+                a.update_position(pop2)
+                judge_position(ctx, a, algo, prep2, pop2, "after_box_change")
+            except Exception as e:
+                ctx.violation("swarm/exception_after_box_change", "update after an in-place box change raised %r" % e, {"bounds": bx2})
+                return
+            ctx.count("updates_after_box_change")
         ctx.count("cases")
         ctx.sample({"algo": algo, "N": N, "n": n, "bounds": bxs[:2], "pre_position": prep[0]}, algo, 1)
     else:
